@@ -156,7 +156,8 @@ pub enum Op {
     GetUniqueMutSet { r: usize, k: String, v: V },
     GetOrInsertWith { r: usize, k: String, v: V },
     GetMutOrInsertWith { r: usize, k: String, v: V, set: Option<V> },
-    CloneTo { r: usize, dst: usize },
+    /// `clone` into register `dst`, or (`from`) `Clone::clone_from` onto whatever `dst` holds
+    CloneTo { r: usize, dst: usize, from: bool },
     IntoIterRebuild { r: usize },
     Fresh { r: usize },
 }
@@ -210,7 +211,7 @@ impl Op {
             Op::RemoveAt { i, .. } | Op::IterMutSet { i, .. } => o.push(("index".into(), J::UInt(*i as u64))),
             Op::GetMutSet { pull, .. } => o.push(("pull".into(), J::UInt(*pull as u64))),
             Op::ExtendFrom { s, .. } => o.push(("src".into(), J::UInt(*s as u64))),
-            Op::CloneTo { dst, .. } => o.push(("dst".into(), J::UInt(*dst as u64))),
+            Op::CloneTo { dst, from, .. } => { o.push(("dst".into(), J::UInt(*dst as u64))); o.push(("clone_from".into(), J::Bool(*from))); }
             Op::GetMutOrInsertWith { set, .. } => o.push(("set".into(), set.as_ref().map(V::to_json).map(|j| J::Arr(vec![j])).unwrap_or(J::Arr(vec![])))),
             _ => {}
         }
@@ -235,7 +236,7 @@ impl Op {
             "iter_mut_set" => Op::IterMutSet { r, i: u("index")?, v: v()? }, "get_mut_set" => Op::GetMutSet { r, k: k()?, pull: u("pull")?, v: v()? },
             "get_unique_mut_set" => Op::GetUniqueMutSet { r, k: k()?, v: v()? }, "get_or_insert_with" => Op::GetOrInsertWith { r, k: k()?, v: v()? },
             "get_mut_or_insert_with" => Op::GetMutOrInsertWith { r, k: k()?, v: v()?, set: match j.get("set").and_then(J::as_arr) { Some([x]) => Some(V::from_json(x)?), _ => None } },
-            "clone_to" => Op::CloneTo { r, dst: u("dst")? }, "into_iter_rebuild" => Op::IntoIterRebuild { r }, "fresh" => Op::Fresh { r },
+            "clone_to" => Op::CloneTo { r, dst: u("dst")?, from: j.get("clone_from").and_then(J::as_bool).unwrap_or(false) }, "into_iter_rebuild" => Op::IntoIterRebuild { r }, "fresh" => Op::Fresh { r },
             x => return Err(format!("unknown op {}", x)),
         })
     }
@@ -250,7 +251,7 @@ impl Op {
         }
         if let Some(c) = self.cancel() { d.usize(c.pull); d.u8(c.then as u8); }
         if let Some(es) = self.entries() { d.usize(es.len()); for (k, v) in es { d.str(k); v.digest(d); } }
-        match self { Op::RemoveAt { i, .. } | Op::IterMutSet { i, .. } => d.usize(*i), Op::GetMutSet { pull, .. } => d.usize(*pull), Op::ExtendFrom { s, .. } => d.usize(*s), Op::CloneTo { dst, .. } => d.usize(*dst),
+        match self { Op::RemoveAt { i, .. } | Op::IterMutSet { i, .. } => d.usize(*i), Op::GetMutSet { pull, .. } => d.usize(*pull), Op::ExtendFrom { s, .. } => d.usize(*s), Op::CloneTo { dst, from, .. } => { d.usize(*dst); d.u8(*from as u8) }
             Op::GetMutOrInsertWith { set, .. } => if let Some(s) = set { s.digest(d) }, _ => {} }
     }
 }
@@ -424,7 +425,7 @@ pub fn gen_hist(rng: &mut Rng, max_len: usize) -> HistSc {
             18 => Op::GetUniqueMutSet { r, k, v: gen_v(rng, 0) },
             19 => Op::GetOrInsertWith { r, k, v: gen_v(rng, 0) },
             20 => Op::GetMutOrInsertWith { r, k, v: gen_v(rng, 0), set: if rng.chance(1, 2) { Some(gen_v(rng, 0)) } else { None } },
-            21 => Op::CloneTo { r, dst: rng.usize_below(REGISTERS) },
+            21 => Op::CloneTo { r, dst: rng.usize_below(REGISTERS), from: rng.chance(1, 2) },
             22 => Op::IntoIterRebuild { r },
             23 => Op::Fresh { r },
             _ => Op::FromParse { r, es: gen_entries(rng, &uni, 10) },
